@@ -8,9 +8,9 @@ import (
 	"github.com/pip-services3-gox/pip-services3-expressions-gox/calculator"
 	"github.com/pip-services3-gox/pip-services3-expressions-gox/calculator/functions"
 	cparsers "github.com/pip-services3-gox/pip-services3-expressions-gox/calculator/parsers"
-	mparsers "github.com/pip-services3-gox/pip-services3-expressions-gox/mustache/parsers"
 	"github.com/pip-services3-gox/pip-services3-expressions-gox/calculator/variables"
 	"github.com/pip-services3-gox/pip-services3-expressions-gox/mustache"
+	mparsers "github.com/pip-services3-gox/pip-services3-expressions-gox/mustache/parsers"
 	"github.com/pip-services3-gox/pip-services3-expressions-gox/variants"
 )
 
